@@ -5,7 +5,7 @@
   What is modelled, statement for statement:
     * `simplices_d_ids` / `simplices_u_ids`  (nodes for order 1 rows / order 0 columns, otherwise
       `S.edges.filterby("order", ·)` in view order)                         → `downIds` / `upIds`
-    * `u_simplex.sort(key=lambda e: (isinstance(e, str), e))`                → `sortMembers` (stable merge sort by `keyLe`)
+    * `u_simplex.sort(key=lambda e: (isinstance(e, str), e))`                → `sortMembers` (stable insertion sort by `keyLe`)
     * `S._subfaces(u_simplex, all=False)` = `itertools.combinations(u, len-1)` → `subfaces` (= `combs l (len-1)`)
     * `list(S.edges)[S.edges.members().index(frozenset(subf))]`              → `faceId?` (first simplex with that member set)
     * `simplices_d_dict[…]`                                                  → `idxOf?` in the row id list
@@ -75,8 +75,14 @@ def keyLe : Atom → Atom → Bool
   | .str _, .int _ => false
   | .str a, .str b => decide (a ≤ b)
 
-/-- `list.sort(key=…)`: a stable sort -/
-def sortMembers (ms : List Atom) : List Atom := ms.mergeSort keyLe
+/-- insert `a` before the first element whose key is not smaller -/
+def insertKey (a : Atom) : List Atom → List Atom
+  | [] => [a]
+  | b :: t => if keyLe a b then a :: b :: t else b :: insertKey a t
+
+/-- `list.sort(key=…)`: a stable sort (insertion sort from the right: equal keys keep their order; every
+    stable sort computes the same list) -/
+def sortMembers (ms : List Atom) : List Atom := ms.foldr insertKey []
 
 /-! ### faces -/
 
